@@ -36,6 +36,8 @@ fn plan(tier: Tier) -> Vec<Workload> {
         Workload::new("fronts", tier.pick(600, 10_000)),
         // an interpreter with a past (draws, RND(0), errors) that is re-seeded must behave like a fresh one
         Workload::new("reseed", tier.pick(6_000, 100_000)),
+        // stored programs: draws inside user functions, as arguments of other draws, across several RUNs
+        Workload::new("programs", tier.pick(6_000, 100_000)),
     ]
 }
 
@@ -410,6 +412,69 @@ fn run_case(ctx: &Ctx, index: u64, rep: &mut Report) {
                 rep.nontrivial(hash_str(&format!("reseed{}|{:?}", seed, script)));
             }
         }
+        "programs" => {
+            let seed = if rng.coin() { rng.below(1 << 33) } else { pick_seed(&mut rng, 999) };
+            let mut sess = Session::new();
+            sess.call(Op::Randomize(seed));
+            let mut model = lcg::Lcg::new(seed);
+            // statement kinds: what they print is computed on the model while the program text is built
+            let n = 3 + rng.usize(8);
+            let mut lines = vec!["5 DEF FN D(X) = INT(RND(1) * X) + 1".to_string()];
+            let mut kinds = vec![];
+            for k in 0..n {
+                let kind = rng.below(7);
+                kinds.push(kind);
+                let text = match kind {
+                    0 => "PRINT RND(1)",
+                    1 => "PRINT RND(FN D(6))",
+                    2 => "PRINT FN D(6)",
+                    3 => "PRINT RND(RND(1))",
+                    4 => "PRINT RND(0)",
+                    5 => "PRINT RND(RND(1) * 0)",
+                    _ => "X = RND(1) : PRINT RND(X + 1)",
+                };
+                lines.push(format!("{} {}", 10 * (k + 1), text));
+            }
+            for l in &lines {
+                sess.call(Op::Line(l.clone()));
+            }
+            let runs = 1 + rng.usize(3);
+            let mut nested = false;
+            for r in 0..runs {
+                let mut want = String::new();
+                for kind in &kinds {
+                    let v = match kind {
+                        0 => model.next(),
+                        1 => { let _d = (model.next() * 6.0).floor() + 1.0; nested = true; model.next() }
+                        2 => (model.next() * 6.0).floor() + 1.0,
+                        3 => { let a = model.next(); nested = true; if a > 0.0 { model.next() } else { model.latest() } }
+                        4 => model.latest(),
+                        5 => { model.next(); nested = true; model.latest() }
+                        _ => { model.next(); model.next() }
+                    };
+                    want.push_str(&format!("{}\n", v));
+                }
+                let out = sess.run_line("RUN", 400);
+                let got = out.printed();
+                let state = sess.snapshot().rng_state;
+                if !out.res.is_ok() || got != want || state != model.state {
+                    ctx.violation(rep, "C18", "program-sequence", index,
+                        format!("randomize({}), program {:?}, RUN #{}: printed {:?} ({}), generator state {}; the documented sequence gives {:?}, state {}",
+                            seed, lines, r + 1, got, out.res.to_json(), state, want, model.state),
+                        json!({"seed": seed, "program": lines, "run": r + 1}));
+                    return;
+                }
+                rep.add("programs.values_compared", kinds.len() as u64);
+                sess.settle();
+            }
+            crate::drive::flush_trips(ctx, rep, index, &sess, || json!({"seed": seed, "program": lines}));
+            if nested && runs > 1 {
+                rep.nontrivial(hash_str(&format!("prog{}|{:?}", seed, kinds)));
+            }
+            if index < 2 {
+                rep.sample(json!({"workload": "programs", "seed": seed, "program": lines, "runs": runs}));
+            }
+        }
         other => panic!("unknown workload {}", other),
     }
 }
@@ -419,13 +484,14 @@ fn finalize(tier: Tier, rep: &mut Report) -> Finalize {
     Finalize {
         rule: "sweep/windows: every visited generator state s is checked through the rng hooks against the u128 model (next state, value bits, 0<=v<1, RND(0) value); \
                these are counted in counters.sweep.states, not in distinct_nontrivial. distinct_nontrivial counts distinct (by hash) seed cases (64 draws through PRINT RND(1)), \
-               script cases containing at least one positive, one zero and one negative argument, and front-end comparison cases.".into(),
+               script cases containing at least one positive, one zero and one negative argument, front-end comparison cases, and stored programs (draws in user functions and as arguments of other draws, RUN two or more times on one interpreter: printed values and final generator state against the documented sequence).".into(),
         floors: vec![
             ("sweep.states".into(), tier.pick(1 << 25, 1 << 33)),
             ("seeds.product_overflows_u64".into(), 100),
             ("scripts.calls".into(), 10_000),
             ("fronts.draws".into(), 1_000),
             ("reseed.statements_compared".into(), 20_000),
+            ("programs.values_compared".into(), 20_000),
             ("distinct_nontrivial".into(), 1_000),
         ],
         assumptions: vec![
